@@ -1,6 +1,6 @@
 (* C06 property theorems. Statements closed by `exact lemma`, followed by Print Assumptions. *)
-From Coq Require Import ZArith NArith List Bool String Lia.
-From OG Require Import C06.Model C06.ModelStream C06.Proofs C06.ProofsInt C06.ProofsDec C06.ProofsRender C06.ProofsStream C06.ProofsFloat.
+From Coq Require Import ZArith NArith List Bool String Lia Permutation.
+From OG Require Import C06.Model C06.ModelStream C06.Proofs C06.ProofsInt C06.ProofsDec C06.ProofsRender C06.ProofsStream C06.ProofsFloat C06.ModelWriter C06.ProofsWriter.
 Import ListNotations.
 Open Scope Z_scope.
 
@@ -141,6 +141,57 @@ Example C06_example_stream :
   List.length (snd (serve_write dec2f_exact cfg_repaired (Some 20%nat) None false 1000 sched 1 body)) = 1%nat /\
   serve_write dec2f_exact cfg_repaired (Some 20%nat) (Some 26%nat) false 1000 sched 1 body = (WRefused, []).
 Proof. vm_compute. repeat split. Qed.
+
+(* ------------------------------------------------------------------------------------------------ *)
+(* the points writer's per-row glue (ModelWriter: stable sort of the fields, fixFields, schema check, partial errors) *)
+
+(* a row with distinct keys, none of them `time`, whose field types agree with the measurement's schema, is handed on
+   without an error with its measurement, tag set, timestamp and exactly its fields (a permutation: sorted by key) -
+   for every schema, in today's writer and in the repaired one *)
+Theorem C06_writer_clean_row_handed_on_exactly : forall c s r, clean_row s r ->
+  exists s',
+    writer_row c s r = (s', {| wo_err := false;
+                               wo_row := Some {| r_name := r_name r; r_tags := r_tags r; r_fields := sort_fields (r_fields r); r_ts := r_ts r |} |}) /\
+    Permutation (r_fields r) (sort_fields (r_fields r)).
+Proof. exact writer_row_clean. Qed.
+Print Assumptions C06_writer_clean_row_handed_on_exactly.
+
+(* repaired writer, EVERY row and schema: a row that is handed on has the measurement, the whole tag set and the timestamp
+   that were written; every field handed on was written; every key that was written is handed on, except keys whose type
+   conflicts with the schema - and then an error is reported for the row *)
+Theorem C06_writer_repaired_sound : forall s r s' o r',
+  writer_row wcfg_repaired s r = (s', o) -> wo_row o = Some r' ->
+  r_name r' = r_name r /\ r_tags r' = r_tags r /\ r_ts r' = r_ts r /\
+  (forall f, In f (r_fields r') -> In f (r_fields r)) /\
+  (forall f, In f (r_fields r) ->
+     (exists f', In f' (r_fields r') /\ fst f' = fst f) \/
+     (wo_err o = true /\ exists f', In f' (r_fields r) /\ fst f' = fst f /\ conflicts s f' = true)).
+Proof. exact writer_row_repaired_sound. Qed.
+Print Assumptions C06_writer_repaired_sound.
+
+(* ... in particular nothing is lost silently: no error reported for a row => it is handed on with every key it was written with *)
+Theorem C06_writer_repaired_no_silent_loss : forall s r s' o,
+  writer_row wcfg_repaired s r = (s', o) -> wo_err o = false ->
+  exists r', wo_row o = Some r' /\ r_name r' = r_name r /\ r_tags r' = r_tags r /\ r_ts r' = r_ts r /\
+             (forall f, In f (r_fields r') -> In f (r_fields r)) /\
+             (forall f, In f (r_fields r) -> exists f', In f' (r_fields r') /\ fst f' = fst f).
+Proof. exact writer_row_repaired_no_silent_loss. Qed.
+Print Assumptions C06_writer_repaired_no_silent_loss.
+
+Example C06_example_writer :
+  match accept_block dec2f_exact cfg_repaired 1 (bs "w,b=2,a=1 y=2i,x=1.5 10") with
+  | Ok [r] => clean_row [] r /\
+              snd (writer_row wcfg_repaired [] r) =
+                {| wo_err := false;
+                   wo_row := Some {| r_name := bs "w"; r_tags := [(bs "a", bs "1"); (bs "b", bs "2")];
+                                     r_fields := [(bs "x", VFloat (bs "1.5") (FFin false 6755399441055744 (-52))); (bs "y", VInt 2 2)];
+                                     r_ts := Some 10 |} |}
+  | _ => False
+  end.
+Proof.
+  vm_compute. split; [|reflexivity].
+  repeat split; try (repeat constructor; cbn; intuition congruence); try discriminate.
+Qed.
 
 (* int_exact_iff: the int64 -> float64 -> int64 passage today's code applies to every integer field returns the
    integer written iff it is a 53-bit mantissa times a power of two (so: every |n| <= 2^53, and beyond that only the
